@@ -498,6 +498,7 @@ void run_self_once(const char* entry, const std::string& variant, const typename
     // s deleted through the C API here
     long c0 = created, d0 = deleted; (void) c0; (void) d0;
     emit("T", entry, variant, m, mv, r, dump_eq, const_ok, usable, extra_ok, 0, note);
+    std::string().swap(note);      // declared outside the ledger block: must not count as a leaked block
   }
   if (live != base) if (!quiet) std::printf("L|%s|%s|case leaked %ld blocks\n", entry, variant.c_str(), live - base);
 }
